@@ -82,6 +82,63 @@ def job_lines(names):
     return acc
 
 
+LINE_EDIT_CHARS = [' ', ':', 'x', '\t', '\u00a0', '*', '\n']
+
+
+def line_edits(line):
+    seen = {line}
+    for i in range(len(line) + 1):
+        cands = [line[:i] + c + line[i:] for c in LINE_EDIT_CHARS]
+        if i < len(line):
+            cands.append(line[:i] + line[i + 1:])
+            cands.append(line[:i] + line[i].swapcase() + line[i + 1:])
+            if i + 1 < len(line):
+                cands.append(line[:i] + line[i + 1] + line[i] + line[i + 2:])
+        for t in cands:
+            if t not in seen:
+                seen.add(t)
+                yield t
+
+
+@worker
+def job_line_edits(names):
+    """Every own keyword of the dialect as a title / step line, and every single edit of that line (one character inserted, deleted,
+    case-swapped, two neighbours exchanged), against all six entry points of the matcher."""
+    acc = Acc()
+    line = None
+    for d in names:
+        tm = TokenMatcher(d)
+        lx = R.RefLexer(d)
+        for role in ROLES:
+            for k in D[d][role]:
+                base = ' ' + (k + 'n' if role in STEP else k + ': n')
+                for line in itertools.chain([base], line_edits(base)):
+                    for mt in list(TITLE) + ['StepLine']:
+                        acc.n += 1
+                        acc.validated += 1
+                        case = {'kind': 'matcher-line', 'dialect': d, 'entry': mt, 'line': line}
+                        t = Token(GherkinLine(line, 1), {'line': 1})
+                        try:
+                            got = getattr(tm, 'match_' + mt)(t)
+                        except Exception as e:  # noqa: BLE001
+                            acc.violation('matcher-exception', case, 'match_%s raised %s: %s' % (mt, type(e).__name__, e))
+                            continue
+                        rt = R.Tok(1, line)
+                        exp = lx.match(mt, rt)
+                        acc.outcomes['%s:edit:%s' % (mt, 'recognised' if got else 'plain')] += 1
+                        if bool(got) != bool(exp):
+                            acc.violation('keyword-recognition', case, 'match_%s returned %r, reference %r' % (mt, got, exp))
+                            continue
+                        if got:
+                            acc.nontrivial += 1
+                            g = fields(t)
+                            e = (mt, rt.keyword, rt.text, rt.ktype, rt.column, d)
+                            if g != e:
+                                acc.violation('keyword-fields', case, 'token fields differ from the reference lexer', observed=g, expected=e)
+    acc.sample({'dialect': names[-1], 'line': line})
+    return acc
+
+
 def ast_equal(text, acc, case, default='en', sig='document'):
     a = I.parse(text, default=default, acc=acc)
     r = R.reference(text, default=default, compile_=False)
@@ -310,6 +367,7 @@ def run(ctx):
     if _dialect.DIALECTS != D:
         ctx.acc.violation('language-table', {'kind': 'files'}, 'loaded DIALECTS differ from the master table')
     ctx.level('line level: dialects x keywords x entry points', [job_lines.job(names[i:i + 2]) for i in range(0, len(names), 2)])
+    ctx.level('line level: single edits of every own keyword line', [job_line_edits.job(names[i:i + 2]) for i in range(0, len(names), 2)])
     ctx.level('end to end: own and foreign keywords', [job_end_to_end.job(names[i:i + 2]) for i in range(0, len(names), 2)])
     from .c10 import shared_spellings
     sp = shared_spellings()
